@@ -40,6 +40,7 @@ class ProbeRec:
         self.expect_exit_error = False
         self.enter_error = None
         self.exp_all = []  # expected events (model) since creation: (opi, ev)
+        self.rules = None  # overlays derived from another one: [(selector, how)], inherited rules first
 
 
 DECLINE = object()
@@ -218,10 +219,19 @@ class Engine:
                 sel = select(strs[0], env=env)
                 how = op["how"]
                 fas = op["sels"][0]["focus"].get("as") or op["sels"][0]["focus"]["var"]
+                base = self.probes.get(op.get("base"))
+                if base is not None and (base.dead or getattr(base, "overlay", None) is None):
+                    base = None
+                # derived overlays (base.tweaking(...) / base.rewriting(...)) carry the rules of the
+                # overlay they were derived from -- the very same rule objects -- plus their own
+                maker = base.overlay if base is not None else ptera.Overlay
+                if base is not None:
+                    self.sim.reach("derived_overlay")
+                rec.rules = (base.rules if base is not None else []) + [(op["sels"][0], how)]
                 if kind == "tweak":
-                    rec.overlay = ptera.Overlay.tweaking({sel: how[1]})
+                    rec.overlay = maker.tweaking({sel: how[1]})
                 else:
-                    rec.overlay = ptera.Overlay.rewriting(
+                    rec.overlay = maker.rewriting(
                         {sel: (lambda d, how=how, fas=fas: apply_override(how, d.get(fas), d, real=True))}
                     )
             elif kind == "overlay":
@@ -718,18 +728,9 @@ class Engine:
         new = value
         for pid in self.order:
             rec = self.probes[pid]
-            how = rec.spec.get("how")
-            if not how:
+            if not rec.spec.get("how"):
                 continue
-            sel = rec.spec["sels"][0]
-            if sel["levels"][-1]["fn"] != fn or sel["focus"]["var"] != var:
-                continue
-            # one intercept per way the chain matches the live stack, in order
-            stack = list(tracer.stack)
-            if not stack or stack[-1] is not act:
-                stack = [a for a in stack if a is not act] + [act]
-            level_fns = [lv["fn"] for lv in sel["levels"]]
-            for emb in msel._embeddings(level_fns, [a.fn for a in stack]):
+            for sel, how, emb, stack in self._interceptions(rec, fn, var, act, tracer):
                 ctx = {}
                 for j, idx in enumerate(emb):
                     alat = self._latest.get(stack[idx].id, {})
@@ -747,6 +748,19 @@ class Engine:
                     new = r
         lat[var] = new
         return new
+
+    def _interceptions(self, rec, fn, var, act, tracer):
+        """(selector, how, embedding, stack) for every rule of this overrider aimed at this binding,
+        one per way its chain matches the live stack, in order."""
+        for sel, how in (rec.rules or [(rec.spec["sels"][0], rec.spec["how"])]):
+            if sel["levels"][-1]["fn"] != fn or sel["focus"]["var"] != var:
+                continue
+            stack = list(tracer.stack)
+            if not stack or stack[-1] is not act:
+                stack = [a for a in stack if a is not act] + [act]
+            level_fns = [lv["fn"] for lv in sel["levels"]]
+            for emb in msel._embeddings(level_fns, [a.fn for a in stack]):
+                yield sel, how, emb, stack
 
     def check_model(self, ob):
         r = ob["res"]
@@ -1198,6 +1212,13 @@ class Engine:
         self.check_name_errors()
         for rec in self.probes.values():
             if rec.active:
+                continue
+            if not rec.entered:
+                # never active (never activated, or its activation was refused): nothing at all
+                for st in rec.stages:
+                    if st["next"] or st["completed"]:
+                        self.violate("C17.silent_outside", {"probe": rec.id, "stage": st["kind"],
+                                                            "never active, but received": [st["next"], st["completed"]]})
                 continue
             for st in rec.stages:
                 # a stage attached after deactivation may be *completed* by a later, redundant
